@@ -56,6 +56,18 @@ struct HSched : public ::babylon::SchedInterface {
 struct Src {
   uint64_t id;
 };
+
+// like vf::pin_cpus(k) but on a seeded window of CPUs (every harness of every check pinning to CPUs 0..k-1 makes
+// the oversubscribed episodes of concurrently running checks pile up on the same cores)
+inline void pin_window(int k, uint64_t salt) {
+  int ncpu = int(sysconf(_SC_NPROCESSORS_ONLN));
+  if (k <= 0 || k >= ncpu) { vf::pin_cpus(0); return; }
+  cpu_set_t set;
+  CPU_ZERO(&set);
+  int first = int(salt % uint64_t(ncpu));
+  for (int i = 0; i < k; ++i) CPU_SET((first + i) % ncpu, &set);
+  sched_setaffinity(0, sizeof set, &set);
+}
 // payload: plain memory (TSan decides visibility); `writers` is monitor state (relaxed RMWs)
 struct Item {
   uint64_t id = 0, inv = 0, a = 0, b = 0;
@@ -545,7 +557,7 @@ void episode(uint64_t seed, uint64_t index, const ::std::string& mode) {
   uint64_t ep_seed = vf::mix(seed, index, 0xe9);
   uint64_t fp = vf::mix(::std::hash<::std::string> {}(cfg.mode + "/" + vf::args().variant), uint64_t(cfg.publishers), uint64_t(cfg.consumers));
   vf::watchdog().set_context(cfg.describe());
-  vf::pin_cpus(cfg.pin);
+  pin_window(cfg.pin, vf::mix(seed, index, 0x91));
   for (int cy = 0; cy < cfg.cycles && !vf::failed(); ++cy) {
     Cycle c;
     c.index = cy;
